@@ -169,11 +169,32 @@ fn grid_layouts(axes: usize, den: i32, max_m: usize, only_m: Option<usize>, out:
     rec(&pts, 0, &mut Vec::new(), max_m, only_m, axes, den, out);
 }
 
+/// 2 axes, every set of m masters strictly inside one quadrant (both coordinates non-zero, signs `sx`,`sy`) on the k/4 grid:
+/// the masters that share their active axes, i.e. the ones whose regions trim each other in `master_influence`
+fn quadrant_layouts(sx: f64, sy: f64, m: usize, out: &mut Vec<Layout>) {
+    let mut pts = Vec::new();
+    for a in 1..=4 { for b in 1..=4 { pts.push(vec![sx * a as f64 / 4.0, sy * b as f64 / 4.0]); } }
+    fn rec(pts: &[Vec<f64>], start: usize, cur: &mut Vec<usize>, m: usize, out: &mut Vec<Layout>) {
+        if cur.len() == m {
+            let mut masters = vec![vec![0.0; 2]];
+            masters.extend(cur.iter().map(|i| pts[*i].clone()));
+            out.push(Layout { axes: 2, masters, origin: format!("quadrant 2ax k/4 m={m}") });
+            return;
+        }
+        for i in start..pts.len() { cur.push(i); rec(pts, i + 1, cur, m, out); cur.pop(); }
+    }
+    rec(&pts, 0, &mut Vec::new(), m, out);
+}
+
 fn layouts_for(tier: &str) -> Vec<Layout> {
     let mut v = catalog();
     grid_layouts(1, 4, 4, None, &mut v);
     grid_layouts(2, 4, 2, None, &mut v);
     grid_layouts(2, 2, 4, None, &mut v);
+    quadrant_layouts(1.0, 1.0, 3, &mut v);
+    quadrant_layouts(-1.0, -1.0, 3, &mut v);
+    quadrant_layouts(1.0, -1.0, 3, &mut v);
+    quadrant_layouts(1.0, 1.0, 4, &mut v);
     if tier == "thorough" {
         grid_layouts(2, 4, 3, Some(3), &mut v);
         grid_layouts(3, 2, 3, None, &mut v);
